@@ -9,6 +9,7 @@ package wsim
 
 import (
 	"bytes"
+	"os"
 	"encoding/json"
 	"fmt"
 	"runtime"
@@ -24,6 +25,7 @@ import (
 	"github.com/bytom/bytom/contract"
 	"github.com/bytom/bytom/crypto"
 	"github.com/bytom/bytom/crypto/ed25519/chainkd"
+	"github.com/bytom/bytom/database"
 	dbm "github.com/bytom/bytom/database/leveldb"
 	"github.com/bytom/bytom/event"
 	"github.com/bytom/bytom/protocol"
@@ -50,8 +52,23 @@ const (
 	PA3    = 7 // account A, address 3
 	PB2    = 8 // account B, address 2
 	PA4    = 9 // account A, address 4
-	NProgs = 10
+	// multi-signature accounts (P2WSH control programs), registered by every wallet; paid only by the
+	// "msig" stream (never spent by the generator: no witness is built for them)
+	PM22   = 10 // account C (2-of-2), address 1
+	PM23   = 11 // account D (2-of-3), address 1
+	NProgs = 12
 )
+
+// msigKeys: the xpubs of the multi-signature accounts C (label 3) and D (label 4)
+func (e *Env) msigKeys(acct int) ([]chainkd.XPub, int) {
+	if acct == 3 {
+		return []chainkd.XPub{rootKey(0xc1).XPub(), rootKey(0xc2).XPub()}, 2
+	}
+	return []chainkd.XPub{rootKey(0xd1).XPub(), rootKey(0xd2).XPub(), rootKey(0xd3).XPub()}, 2
+}
+
+// IsMsig: a program of a multi-signature account
+func IsMsig(p int) bool { return p == PM22 || p == PM23 }
 
 // LatePrograms in the order in which a wallet can learn them per account (CreateAddress hands out
 // the next index of the account).
@@ -156,6 +173,18 @@ func NewEnv(sched Schedule) *Env {
 	derive(PA4, 1, 4, false)
 	for _, l := range LatePrograms {
 		e.Progs[l].Late = true
+	}
+	for _, x := range [][2]int{{PM22, 3}, {PM23, 4}} {
+		xpubs, quorum := e.msigKeys(x[1])
+		a, err := account.CreateAccount(xpubs, quorum, "x", 1, signers.BIP0044)
+		if err != nil {
+			panic(err)
+		}
+		cp, err := account.CreateCtrlProgram(a, 1, false)
+		if err != nil {
+			panic(err)
+		}
+		add(&ProgInfo{Label: x[0], Code: cp.ControlProgram, P2W: true, Owned: true, Acct: x[1], Index: 1})
 	}
 	fk := rootKey(0xf3)
 	add(&ProgInfo{Label: PForeign, Code: p2wpkh(fk.XPub().PublicKey()), P2W: true, key: &fk})
@@ -380,7 +409,97 @@ func (g *gateDB) Allow(n int, timeout time.Duration) (int, error) {
 	}
 }
 
+// gateStore is the node's store with a turnstile between two CHAIN reads of the walletUpdater
+// goroutine: the updater has found its best block in the main chain (Chain.InMainChain) and is about
+// to fetch the block at WorkHeight+1 (Chain.GetBlockByHeight -> GetMainChainHash).  With the
+// turnstile closed the harness can let the node reorganise exactly there.  Every call is forwarded
+// to the real database.Store.
+type gateStore struct {
+	*database.Store
+	mu      sync.Mutex
+	cond    *sync.Cond
+	hold    bool
+	waiting bool
+	Held    int // how often the updater stood at the turnstile
+}
+
+func newGateStore(st *database.Store) *gateStore {
+	g := &gateStore{Store: st}
+	g.cond = sync.NewCond(&g.mu)
+	return g
+}
+
+func (g *gateStore) GetMainChainHash(height uint64) (*bc.Hash, error) {
+	g.mu.Lock()
+	if g.hold {
+		buf := make([]byte, 16384)
+		st := string(buf[:runtime.Stack(buf, false)])
+		if strings.Contains(st, "(*Wallet).walletUpdater") && strings.Contains(st, "(*Chain).GetBlockByHeight") {
+			g.Held++
+			for g.hold {
+				g.waiting = true
+				g.cond.Wait()
+			}
+			g.waiting = false
+		}
+	}
+	g.mu.Unlock()
+	return g.Store.GetMainChainHash(height)
+}
+
+func (g *gateStore) Hold() {
+	g.mu.Lock()
+	g.hold = true
+	g.mu.Unlock()
+}
+
+func (g *gateStore) Release() {
+	g.mu.Lock()
+	g.hold = false
+	g.cond.Broadcast()
+	g.mu.Unlock()
+}
+
+func (g *gateStore) Waiting() bool {
+	g.mu.Lock()
+	defer g.mu.Unlock()
+	return g.waiting
+}
+
+// WaitHeldOrIdle: the updater stands at the turnstile, or has nothing to do.
+func (g *gateStore) WaitHeldOrIdle(timeout time.Duration) (bool, error) {
+	deadline := time.Now().Add(timeout)
+	for {
+		if g.Waiting() {
+			return true, nil
+		}
+		if updatersIdle() && !g.Waiting() && updatersIdle() {
+			return false, nil
+		}
+		if time.Now().After(deadline) {
+			return false, fmt.Errorf("the wallet updater neither reached the chain turnstile nor went idle")
+		}
+		time.Sleep(200 * time.Microsecond)
+	}
+}
+
+// newGatedNode: chainlib.NewNodeOnDB with the gateStore between the chain and the real store.
+func newGatedNode(dir string) (*cl.Node, *gateStore, error) {
+	os.MkdirAll(dir, 0755)
+	db := dbm.NewDB("core", "leveldb", dir)
+	store := database.NewStore(db)
+	gs := newGateStore(store)
+	disp := event.NewDispatcher()
+	pool := protocol.NewTxPool(gs, disp)
+	chain, err := protocol.NewChain(gs, pool, disp)
+	if err != nil {
+		return nil, nil, err
+	}
+	return &cl.Node{Dir: dir, DB: db, Store: store, Pool: pool, Disp: disp, Chain: chain}, gs, nil
+}
+
 type WalletNode struct {
+	CGate   *gateStore
 	Env     *Env
 	N       *cl.Node
 	DB      dbm.DB
@@ -388,7 +507,7 @@ type WalletNode struct {
 	Mgr     *account.Manager
 	W       *wallet.Wallet
 	Keeper  *account.VerifKeeper
-	AcctID  [3]string // label -> account id (uuid, differs per wallet)
+	AcctID  [5]string // label -> account id (uuid, differs per wallet): A, B, C (2-of-2), D (2-of-3)
 	Learned map[int]bool // late programs this wallet has registered
 
 	// transaction pool messages: the node's pool posts them on the node's dispatcher; the harness
@@ -402,12 +521,12 @@ type WalletNode struct {
 // NewWalletNode starts a node on LevelDB under dir and a wallet on a memory DB following it.  The
 // wallet registers the late programs in learned (in the order of LatePrograms) from the start.
 func (e *Env) NewWalletNode(dir string, learned ...int) (*WalletNode, error) {
-	n, err := cl.NewNode(dir)
+	n, cgate, err := newGatedNode(dir)
 	if err != nil {
 		return nil, err
 	}
 	gate := newGateDB()
-	wn := &WalletNode{Env: e, N: n, DB: gate, Gate: gate, Learned: map[int]bool{}, wdisp: event.NewDispatcher()}
+	wn := &WalletNode{Env: e, N: n, CGate: cgate, DB: gate, Gate: gate, Learned: map[int]bool{}, wdisp: event.NewDispatcher()}
 	if wn.poolSub, err = n.Disp.Subscribe(protocol.TxMsgEvent{}); err != nil {
 		return nil, err
 	}
@@ -419,7 +538,15 @@ func (e *Env) NewWalletNode(dir string, learned ...int) (*WalletNode, error) {
 		}
 		wn.AcctID[a] = acc.ID
 	}
-	for _, l := range []int{PA1, PA2, PAChange, PB1} {
+	for a := 3; a <= 4; a++ {
+		xpubs, quorum := e.msigKeys(a)
+		acc, err := wn.Mgr.Create(xpubs, quorum, fmt.Sprintf("acct%d", a), signers.BIP0044)
+		if err != nil {
+			return nil, err
+		}
+		wn.AcctID[a] = acc.ID
+	}
+	for _, l := range []int{PA1, PA2, PAChange, PB1, PM22, PM23} {
 		if err := wn.register(l); err != nil {
 			return nil, err
 		}
@@ -478,7 +605,7 @@ func (wn *WalletNode) LearnedList() []int {
 
 // Owns: the wallet has registered the program.
 func (wn *WalletNode) Owns(prog int) bool {
-	return (prog >= PA1 && prog <= PB1) || wn.Learned[prog]
+	return (prog >= PA1 && prog <= PB1) || IsMsig(prog) || wn.Learned[prog]
 }
 
 // goroutinesParked: every goroutine of this process running fn is blocked in one of the given wait
@@ -632,6 +759,10 @@ func (wn *WalletNode) project(std bool, u *account.UTXO) Rec {
 		r.Acct = 1
 	case wn.AcctID[2]:
 		r.Acct = 2
+	case wn.AcctID[3]:
+		r.Acct = 3
+	case wn.AcctID[4]:
+		r.Acct = 4
 	default:
 		r.Acct = -1
 	}
@@ -664,7 +795,7 @@ func (wn *WalletNode) List() []Rec {
 // the vocabulary, without or with the unconfirmed ones.
 func (wn *WalletNode) matureSet(useUnconfirmed bool) map[bc.Hash]*account.UTXO {
 	m := map[bc.Hash]*account.UTXO{}
-	for a := 1; a <= 2; a++ {
+	for a := 1; a <= 4; a++ {
 		for _, vote := range [][]byte{nil, wn.Env.VoteTo} {
 			us, _ := wn.Keeper.VerifFindUtxos(wn.AcctID[a], consensus.BTMAssetID, useUnconfirmed, vote)
 			for _, u := range us {
@@ -724,7 +855,7 @@ func (wn *WalletNode) OffersUnconfirmed(list []Rec) []Offer {
 		get(id).Find = u
 	}
 	// Reserve by amount: ask every (account, vote) for all that findUtxos offers it
-	for a := 1; a <= 2; a++ {
+	for a := 1; a <= 4; a++ {
 		for _, vote := range [][]byte{nil, wn.Env.VoteTo} {
 			us, _ := wn.Keeper.VerifFindUtxos(wn.AcctID[a], consensus.BTMAssetID, true, vote)
 			var sum uint64
